@@ -874,3 +874,167 @@ Section HashTop.
     intros st inputs p n. cbv zeta. apply hash_value. apply cli_inputs_constant.
   Qed.
 End HashTop.
+
+(* inputs are read before the script is looked at: an invalid source decides the outcome alone *)
+Lemma bad_input_exits_1 : forall eval m of stdin flags prog,
+  existsb is_bad (sources (stdin_for m stdin) flags) = true ->
+  cli_run eval m of stdin flags prog = cli_fail 1.
+Proof.
+  intros eval m of stdin flags prog H. apply read_inputs_fails_iff_bad in H.
+  unfold cli_run. fold (stdin_for m stdin).
+  destruct (read_inputs (stdin_for m stdin) flags) as [[i|] st]; [discriminate|reflexivity].
+Qed.
+
+(* ---- loading does not depend on the heap: [loadable] decides to_value's success ---- *)
+Fixpoint loadable (s : sval) : bool :=
+  match s with
+  | SList l => forallb loadable l
+  | SRec r => forallb (fun kv => loadable (snd kv)) r
+  | SLam _ None => false
+  | SBuiltin None => false
+  | _ => true
+  end.
+
+Section SvalInd.
+  Variable P : sval -> Prop.
+  Hypothesis Hnum : forall x, P (SNum x).
+  Hypothesis Hbool : forall b, P (SBool b).
+  Hypothesis Hnull : P SNull.
+  Hypothesis Hstr : forall s, P (SStr s).
+  Hypothesis Hlist : forall l, Forall P l -> P (SList l).
+  Hypothesis Hrec : forall r, Forall (fun kv => P (snd kv)) r -> P (SRec r).
+  Hypothesis Hlam : forall a b, P (SLam a b).
+  Hypothesis Hbi : forall b, P (SBuiltin b).
+  Fixpoint sval_ind' (s : sval) : P s :=
+    match s with
+    | SNum x => Hnum x
+    | SBool b => Hbool b
+    | SNull => Hnull
+    | SStr x => Hstr x
+    | SList l =>
+        Hlist l ((fix go (l : list sval) : Forall P l :=
+                    match l with
+                    | [] => Forall_nil _
+                    | x :: r => Forall_cons x (sval_ind' x) (go r)
+                    end) l)
+    | SRec r =>
+        Hrec r ((fix go (r : list (string * sval)) : Forall (fun kv => P (snd kv)) r :=
+                   match r with
+                   | [] => Forall_nil _
+                   | kv :: r' => Forall_cons kv (sval_ind' (snd kv)) (go r')
+                   end) r)
+    | SLam a b => Hlam a b
+    | SBuiltin b => Hbi b
+    end.
+End SvalInd.
+
+(* the two inner loops of to_value, named *)
+Fixpoint tv_list (st : store) (l : list sval) {struct l} : option (list value) * store :=
+  match l with
+  | [] => (Some [], st)
+  | x :: rest =>
+      match to_value st x with
+      | (Some v, st1) =>
+          match tv_list st1 rest with
+          | (Some vs, st2) => (Some (v :: vs), st2)
+          | (None, st2) => (None, st2)
+          end
+      | (None, st1) => (None, st1)
+      end
+  end.
+Fixpoint tv_rec (st : store) (acc : list (string * value)) (l : list (string * sval)) {struct l}
+  : option (list (string * value)) * store :=
+  match l with
+  | [] => (Some acc, st)
+  | (k, x) :: rest =>
+      match to_value st x with
+      | (Some v, st1) => tv_rec st1 (rec_insert acc k v) rest
+      | (None, st1) => (None, st1)
+      end
+  end.
+Lemma to_value_SList : forall st l,
+  to_value st (SList l) = (option_map VList (fst (tv_list st l)), snd (tv_list st l)).
+Proof. reflexivity. Qed.
+Lemma to_value_SRec : forall st r,
+  to_value st (SRec r) = (option_map VRec (fst (tv_rec st [] r)), snd (tv_rec st [] r)).
+Proof. reflexivity. Qed.
+
+Lemma to_value_loadable : forall s st,
+  (exists v, fst (to_value st s) = Some v) <-> loadable s = true.
+Proof.
+  induction s using sval_ind'; intros st.
+  - cbn; split; eauto.
+  - cbn; split; eauto.
+  - cbn; split; eauto.
+  - cbn; split; eauto.
+  - (* SList *)
+    rewrite to_value_SList. cbn [loadable fst].
+    assert (forall st, (exists vs, fst (tv_list st l) = Some vs) <-> forallb loadable l = true) as Hgo.
+    { clear st. induction H as [|x l Hx Hl IH]; intros st; cbn [tv_list forallb].
+      - cbn. split; eauto.
+      - specialize (Hx st). destruct (to_value st x) as [[v|] st1]; cbn [fst] in Hx.
+        + specialize (IH st1). destruct (tv_list st1 l) as [[vs|] st2]; cbn [fst] in *.
+          * split; [intros _|eauto]. apply andb_true_iff. split; [apply Hx; eauto|apply IH; eauto].
+          * split; [intros [vs Hv]; discriminate|]. intros Ha. apply andb_true_iff in Ha.
+            destruct Ha as [_ Ha]. apply IH in Ha. destruct Ha as [vs Hv]. discriminate.
+        + split; [intros [vs Hv]; discriminate|]. intros Ha. apply andb_true_iff in Ha.
+          destruct Ha as [Ha _]. apply Hx in Ha. destruct Ha as [v Hv]. discriminate. }
+    specialize (Hgo st). destruct (tv_list st l) as [[vs|] st2]; cbn [fst option_map] in *.
+    + split; [intros _; apply Hgo; eauto|eauto].
+    + split; [intros [v Hv]; discriminate|]. intros Ha. apply Hgo in Ha. destruct Ha as [vs Hv]. discriminate.
+  - (* SRec *)
+    rewrite to_value_SRec. cbn [loadable fst].
+    assert (forall st acc, (exists m, fst (tv_rec st acc r) = Some m) <->
+                           forallb (fun kv => loadable (snd kv)) r = true) as Hgo.
+    { clear st. induction H as [|[k x] r Hx Hr IH]; intros st acc; cbn [tv_rec forallb snd].
+      - cbn. split; eauto.
+      - cbn [snd] in Hx. specialize (Hx st). destruct (to_value st x) as [[v|] st1]; cbn [fst] in Hx.
+        + rewrite IH. split.
+          * intros Ha. apply andb_true_iff. split; [apply Hx; eauto|exact Ha].
+          * intros Ha. apply andb_true_iff in Ha. tauto.
+        + split; [intros [m Hm]; discriminate|]. intros Ha. apply andb_true_iff in Ha.
+          destruct Ha as [Ha _]. apply Hx in Ha. destruct Ha as [v Hv]. discriminate. }
+    specialize (Hgo st []). destruct (tv_rec st [] r) as [[m|] st2]; cbn [fst option_map] in *.
+    + split; [intros _; apply Hgo; eauto|eauto].
+    + split; [intros [v Hv]; discriminate|]. intros Ha. apply Hgo in Ha. destruct Ha as [m Hm]. discriminate.
+  - destruct b as [body|]; cbn.
+    + split; eauto.
+    + split; [intros [v Hv]; discriminate|discriminate].
+  - destruct b as [b|]; cbn.
+    + split; eauto.
+    + split; [intros [v Hv]; discriminate|discriminate].
+Qed.
+
+Lemma to_value_not_loadable : forall s st, loadable s = false -> fst (to_value st s) = None.
+Proof.
+  intros s st H. destruct (fst (to_value st s)) as [v|] eqn:E; [|reflexivity].
+  assert (loadable s = true) as Ht by (apply (to_value_loadable s st); eauto). congruence.
+Qed.
+
+(* an object contributes exactly its loadable entries: the others are dropped silently *)
+Lemma load_entries_keys : forall es st acc,
+  map fst (fst (load_entries st acc es)) =
+  fold_left add_key (map fst (filter (fun kv => loadable (snd kv)) es)) (map fst acc).
+Proof.
+  induction es as [|[k sv] es IH]; intros st acc; cbn [load_entries filter snd]; [reflexivity|].
+  destruct (loadable sv) eqn:L.
+  - destruct (proj2 (to_value_loadable sv st) L) as [v Hv].
+    destruct (to_value st sv) as [o st1]. cbn [fst] in Hv. subst o.
+    rewrite IH, keys_insert. reflexivity.
+  - pose proof (to_value_not_loadable sv st L) as Hn.
+    destruct (to_value st sv) as [o st1]. cbn [fst] in Hn. subst o. apply IH.
+Qed.
+
+(* a non-object value is named iff it loads *)
+Lemma parse_json_inputs_IVal : forall st n sv,
+  fst (fst (parse_json_inputs st n (IVal sv))) <> None /\
+  snd (parse_json_inputs st n (IVal sv)) = (if loadable sv then S n else n) /\
+  option_map (map fst) (fst (fst (parse_json_inputs st n (IVal sv)))) =
+    Some (if loadable sv then [value_key (S n)] else []).
+Proof.
+  intros st n sv. cbn [parse_json_inputs]. destruct (loadable sv) eqn:L.
+  - destruct (proj2 (to_value_loadable sv st) L) as [v Hv].
+    destruct (to_value st sv) as [o st1]. cbn [fst] in Hv. subst o. cbn. repeat split. discriminate.
+  - pose proof (to_value_not_loadable sv st L) as Hn.
+    destruct (to_value st sv) as [o st1]. cbn [fst] in Hn. subst o. cbn. repeat split. discriminate.
+Qed.
